@@ -44,6 +44,18 @@ fn main() {
                 }
             }
         }
+        Some("one") => {
+            let tier = if args.get(3).map(|s| s.as_str()) == Some("thorough") {
+                Tier::Thorough
+            } else {
+                Tier::Quick
+            };
+            let idx: u64 = args.get(4).and_then(|s| s.parse().ok()).unwrap_or(0);
+            match specs.iter().find(|s| Some(s.prop) == args.get(2).map(|s| s.as_str())) {
+                Some(spec) => driver::one(spec, tier, idx),
+                None => 2,
+            }
+        }
         Some("replay") => match args.get(2) {
             Some(p) => driver::replay(&specs, p),
             None => usage(),
